@@ -67,6 +67,35 @@ def chk_method(inp):
         return bad("after rebuilding the covariance matrix the reconstructor is stale (not computed from the current matrix)", float(abs(R2 - want2).max()), 0.0)
 
 
+    # end to end: geometries fed through the builder, incl. a guide star in the SAME direction as the target sensor but at another
+    # altitude / with another mask / at another wavelength (not a duplicate), and a true duplicate
+    m4 = aotools.circle(2, 4)
+    m4b = numpy.array(m4); m4b[0, 1], m4b[3, 3] = 0, 1          # same number of sub-apertures, different layout
+    systems = {
+        "same direction, LGS behind an NGS target": dict(masks=[m4, m4, m4], H=[0, 90000., 0], pos=[[10, 5], [10, 5], [-10, 15]], lam=[5e-7] * 3),
+        "same direction, different mask layout": dict(masks=[m4, m4b, m4], H=[0, 0, 0], pos=[[0, 0], [0, 0], [12, -7]], lam=[5e-7] * 3),
+        "same direction, different wavelength": dict(masks=[m4, m4, m4], H=[0, 0, 0], pos=[[3, 3], [3, 3], [-9, 4]], lam=[1.65e-6, 6e-7, 6e-7]),
+        "true duplicate": dict(masks=[m4, m4, m4], H=[0, 0, 0], pos=[[3, 3], [3, 3], [-9, 4]], lam=[5e-7] * 3),
+        "no coincidence": dict(masks=[m4, m4b, m4], H=[0, 90000., 20000.], pos=[[0, 0], [14, 2], [-9, 4]], lam=[5e-7, 6e-7, 7e-7]),
+    }
+    for name, s_ in systems.items():
+        cmx = aotools.CovarianceMatrix(3, s_["masks"], 8., [2., 2., 2.], s_["H"], s_["pos"], s_["lam"], 2, numpy.array([0., 6000.]), [0.2, 0.3], [25., 20.])
+        C = cmx.make_covariance_matrix().astype(float)
+        n2 = 2 * int(cmx.n_subaps[0])
+        Cno, Coo = C[:n2, n2:], C[n2:, n2:]
+        for cond in (0, 1e-4):
+            R = numpy.asarray(cmx.make_tomographic_reconstructor(cond), dtype=float)
+            if R.shape != Cno.shape:
+                return bad("end to end (%s): reconstructor shape" % name, list(R.shape), list(Cno.shape))
+            w, V = numpy.linalg.eigh((Coo + Coo.T) / 2)
+            keep = w > max(cond, 3e-6) * w.max()          # single-precision builder: modes below ~1e-6 are rounding
+            P = V[:, keep] @ V[:, keep].T
+            lhs, rhs = R @ Coo @ P, Cno @ P
+            if not numpy.allclose(lhs, rhs, rtol=0, atol=2e-3 * abs(C).max()):
+                return bad("end to end (%s, conditioning %g): the method's reconstructor does not satisfy the normal equations R C_oo = C_no on the retained subspace" % (name, cond),
+                           float(abs(lhs - rhs).max() / abs(C).max()), "< 2e-3")
+
+
 one = lambda t, s: [{}]
 CLAUSES = {"normal-equations": (chk_normal, one), "method": (chk_method, one)}
 if __name__ == "__main__":
